@@ -145,15 +145,25 @@ def one(ctx, rng, xr, dask, ops, names):
             if backing == "forcing":
                 xin = x
         key = "%s|chunks=%s:%s|%s|%s%d|lead=%d" % (name, ck, backing, dt, sched, nw, len(lnames))
+        # a session in which the user has lowered dask's target block size ("array.chunk-size"): whatever dask would pick
+        # for an automatic chunk is then far smaller than one spectrum's core dimensions
+        import contextlib
+        import dask
+        small = rng.random() < 0.2
+        cfg = dask.config.set({"array.chunk-size": str(rng.choice(["64B", "512B", "4KiB"]))}) if small else contextlib.nullcontext()
+        if small:
+            key += "|small-dask-block-size"
+            rec.note("lowered_dask_block_size")
         try:
-            Rc = op.fn(xin, auxin)
-            kw = {"scheduler": sched}
-            if sched == "threads":
-                kw["num_workers"] = nw
-            if isinstance(Rc, tuple):
-                Rc = tuple(r.compute(**kw) for r in Rc)
-            else:
-                Rc = Rc.compute(**kw) if hasattr(Rc, "compute") else Rc
+            with cfg:
+                Rc = op.fn(xin, auxin)
+                kw = {"scheduler": sched}
+                if sched == "threads":
+                    kw["num_workers"] = nw
+                if isinstance(Rc, tuple):
+                    Rc = tuple(r.compute(**kw) for r in Rc)
+                else:
+                    Rc = Rc.compute(**kw) if hasattr(Rc, "compute") else Rc
         except Exception as e:
             mech = "raises-on-chunked-input"
             if "core dimension" in str(e) or "consists of multiple chunks" in str(e):
